@@ -71,6 +71,29 @@ CHECKS = {
                      "position / slicing are checked on the same calls.",
                 technique="TLA+ specification of cell + curve checked by TLC; code->spec trace validation of every call (element-level oracle)",
                 ref="§6 C08"),
+    "C09": dict(engine="Pack/Trace_Pack (+ HilbertDist, Hilbert, SPMeasure)",
+                text="Pack!PackOK states the contract (partition count, permutation of the rows, keys non-decreasing within and across "
+                     "partitions, key = curve position of the bbox-centre cell for the WHOLE frame's total bounds); every packed frame the "
+                     "driver produces (7 kinds, two geometry columns, missing / duplicate rows, 1-3 input partitions incl. emptied and "
+                     "pre-sorted ones, npartitions 1..5, p up to 20 incl. 16) is logged per partition and judged by TLC; whole-row integrity "
+                     "and index name are compared directly.",
+                technique="TLA+ contract over logged results (code->spec trace validation by TLC); Dask's shuffle is a black box",
+                ref="§6 C09"),
+    "C11": dict(engine="ParquetDS/MC_ParquetDS/Trace_ParquetDS",
+                text="The observable frame is an abstract record; the round-trip identity, the columns= projection rule and the list / glob "
+                     "concatenation rule are TLA+ operators; the driver covers kind x subtype x backing x index kind x compression x partitions "
+                     "x projection with pandas and Dask writers / readers and TLC judges every (before, after) pair.",
+                technique="TLA+ identity / projection / concatenation rules; code->spec trace validation by TLC over a covering configuration walk",
+                note="Parquet / Arrow byte-level fidelity is observed through read-back, not modelled. ",
+                ref="§6 C11"),
+    "C12": dict(engine="ParquetDS/MC_ParquetDS/Trace_ParquetDS",
+                text="TLC checks that partition numbers travelling as strings (file names, JSON keys) come back in numeric order through the "
+                     "natural sort / integer conversion for up to 16 partitions (and that more than ten partitions are needed to see a "
+                     "difference); recorded bounds at three observation points vs the elements actually loaded per partition, and the "
+                     "bounds= pruning (kept partitions, reported bounds, no intersecting row lost) are judged by TLC for both writers, "
+                     "two geometry columns, geometry= choices, lists and globs.",
+                technique="TLC check of the ordering design; code->spec trace validation of recorded bounds and pruning",
+                ref="§6 C12"),
     "C13": dict(engine="SPMeasure/SPMeasureImpl/MC_Measure/Trace_Measure",
                 text="TLC checks bounds_interleaved over (values, outer offsets) against the tight-extent oracle on every element of the "
                      "families (non-finite coordinates, empty, degenerate); states replayed on all array types x subtypes x images x 11 "
